@@ -11,7 +11,6 @@ import (
 	"os"
 	"os/exec"
 	"path/filepath"
-	"regexp"
 	"sort"
 	"strconv"
 	"strings"
@@ -105,7 +104,7 @@ func runParent() int {
 		entries = entries[:len(entries)-1]
 	}
 	run.Rule("inputs per (entry point, protocol) = pure function of (seed, tier): (i) every byte string of length 0-1 and (thorough) 2, fills of length 0-64 with 00/FF/counter; " +
-		"(ii) structured mutations of valid fixture frames built with the reference codec (every Frugal and Thrift size field set to 0,1,2,3,len-1,len+1,7FFFFFFF,80000000,FFFFFFFF; version byte; truncation at every offset with and without a consistent frame size; duplicate/missing/non-numeric _opid; _timeout extremes; method name; message type) - all of them in thorough, a stratified PRNG sample in quick; " +
+		"(iv) structurally valid frames with 600 KiB - 1 MiB method names, header values, string and binary arguments (larger than the bounded buffers on the way); (ii) structured mutations of valid fixture frames built with the reference codec (every Frugal and Thrift size field set to 0,1,2,3,len-1,len+1,7FFFFFFF,80000000,FFFFFFFF; version byte; truncation at every offset with and without a consistent frame size; duplicate/missing/non-numeric _opid; _timeout extremes; method name; message type) - all of them in thorough, a stratified PRNG sample in quick; " +
 		"(iii) PRNG byte flips and splices. Each input is logged, delivered to a receiver living in a child process, and followed by a well-formed canary whose handling is verified. distinct = entry point x protocol x mutation class x delivery variant, counted when at least one such input was delivered")
 	run.Assume("Apache Thrift, nats.go, the embedded nats-server, go-stomp and net/http are trusted; the STOMP broker is verif/rig's; a child that runs out of memory is excluded (memory amplification is not part of the statement)")
 	run.Assume("the panic signature is the first frame of the panicking goroutine inside github.com/Workiva/frugal/lib/go (function name, no line)")
@@ -275,6 +274,9 @@ func runParent() int {
 		}
 		what := fmt.Sprintf("%s: %s [%s] after input #%d (%s, %s, %d bytes, delivery %s); %d occurrence(s) in this run; %s",
 			best.Entry, describe(best), best.Where, best.Idx, best.Class, best.Proto, len(best.Hex)/2, best.Mode, len(cs), best.Confirm)
+		if n := len(best.Hex); n > 8192 {
+			best.Hex = fmt.Sprintf("%s...(%d bytes in all: %s; regenerate with --replay from entry point, protocol, index, seed and tier)", best.Hex[:1024], n/2, summarize(best.Hex))
+		}
 		run.Violation(sig, what, map[string]interface{}{
 			"entry_point": best.Entry, "protocol": best.Proto, "input_index": best.Idx, "mutation_class": best.Class,
 			"delivery": best.Mode, "input_hex": best.Hex, "kind": best.Kind, "message": best.Msg, "where": best.Where,
@@ -289,6 +291,22 @@ func runParent() int {
 	}
 	code := run.Finish()
 	return code
+}
+
+// summarize describes a big input by its runs of one repeated byte.
+func summarize(h string) string {
+	var parts []string
+	for i := 0; i+2 <= len(h) && len(parts) < 12; {
+		j := i + 2
+		for j+2 <= len(h) && h[j:j+2] == h[i:i+2] {
+			j += 2
+		}
+		if (j-i)/2 >= 64 {
+			parts = append(parts, fmt.Sprintf("%d x %s at offset %d", (j-i)/2, h[i:i+2], i/2))
+		}
+		i = j
+	}
+	return strings.Join(parts, ", ")
 }
 
 func describe(c crash) string {
@@ -356,7 +374,7 @@ func runBatch(j job) *batchResult {
 					pending = &logged{n, fs[2], fs[3], fs[4]}
 					res.delivered++
 					res.classes[fs[2]+"|"+fs[3]]++
-					if res.sample == nil && fs[2] != "short" && fs[2] != "fill" {
+					if res.sample == nil && fs[2] != "short" && fs[2] != "fill" && len(fs[4]) <= 600 {
 						res.sample = pending
 					}
 				case "K":
@@ -449,10 +467,6 @@ func runChildProc(j job, from int, skip, logPath, errPath string) (exit int, tim
 	return 0, timedOut
 }
 
-const frugalPkg = "github.com/Workiva/frugal/lib/go."
-
-var lineRe = regexp.MustCompile(`^\t(\S+):(\d+)`)
-
 // panicSite finds the panic message and the first frame of the panicking
 // goroutine inside the runtime library under test.
 func panicSite(stderr string) (kind, msg, fn, where, stack string) {
@@ -521,22 +535,7 @@ func panicSite(stderr string) (kind, msg, fn, where, stack string) {
 	return
 }
 
-// idleStates: where the library's own goroutines legitimately wait for work
-// or for their caller (not evidence of a wedge).
-var idleStates = map[string]string{
-	"(*fNatsServer).worker":                        "[chan receive",
-	"(*fNatsServer).Serve":                         "[chan receive",
-	"(*fNatsSubscriberTransport).worker":           "[select",
-	"(*fStompSubscriberTransport).processMessages": "[select",
-	"(*fAdapterTransport).Request":                 "[select",
-	"(*fAdapterTransport).Oneway":                  "[select",
-	"(*fNatsTransport).Request":                    "[select",
-	"(*monitorRunner).run":                         "[chan receive",
-}
-
-// blockedSite inspects a stall dump: a goroutine whose top user frame is in
-// the library and which is parked on a channel or a lock anywhere but at its
-// idle point waits for something its peer cannot release by sending bytes.
+// blockedSite inspects the dump a stalled child wrote.
 func blockedSite(stderr string) (fn, where, state string) {
 	i := strings.Index(stderr, "C05-STALL-DUMP-BEGIN")
 	if i < 0 {
@@ -545,53 +544,7 @@ func blockedSite(stderr string) (fn, where, state string) {
 	if i < 0 {
 		return
 	}
-	for _, blk := range strings.Split(stderr[i:], "\n\n") {
-		ls := strings.Split(strings.TrimSpace(blk), "\n")
-		if len(ls) < 3 || !strings.HasPrefix(ls[0], "goroutine ") {
-			continue
-		}
-		st := ls[0]
-		if k := strings.Index(st, "["); k >= 0 {
-			st = strings.TrimSuffix(strings.TrimSpace(st[k:]), ":")
-		}
-		parked := false
-		for _, p := range []string{"[chan send", "[chan receive", "[select", "[semacquire", "[sync."} {
-			if strings.HasPrefix(st, p) {
-				parked = true
-			}
-		}
-		if !parked {
-			continue
-		}
-		for k := 1; k < len(ls); k++ {
-			l := ls[k]
-			if strings.HasPrefix(l, "\t") {
-				continue
-			}
-			name := l
-			if p := strings.LastIndex(name, "("); p > 0 {
-				name = name[:p]
-			}
-			if strings.HasPrefix(name, "runtime.") || strings.HasPrefix(name, "sync.") || strings.HasPrefix(name, "internal/") {
-				continue
-			}
-			if strings.HasPrefix(name, frugalPkg) {
-				fn := strings.TrimPrefix(name, frugalPkg)
-				if idleStates[fn] != "" && strings.HasPrefix(st, idleStates[fn]) {
-					break // where this goroutine waits for work
-				}
-				loc := ""
-				if k+1 < len(ls) {
-					if m := lineRe.FindStringSubmatch(ls[k+1]); m != nil {
-						loc = filepath.Base(m[1]) + ":" + m[2]
-					}
-				}
-				return fn, loc, st
-			}
-			break
-		}
-	}
-	return
+	return blockedCandidate(parseGoroutines(stderr[i:]))
 }
 
 func classify(j job, l *logged, exit int, timedOut bool, tail, stderr string) crash {
@@ -616,6 +569,20 @@ func classify(j job, l *logged, exit int, timedOut bool, tail, stderr string) cr
 	}
 	fs := strings.SplitN(tail, " ", 4)
 	switch {
+	case exit == exitBlock && len(fs) >= 4:
+		w := strings.SplitN(fs[3], " ", 3)
+		c.Kind = "blocked"
+		c.Msg = fs[3] + "; no other goroutine is inside the library except at a waiting point, and the canary was not served"
+		if len(w) > 1 {
+			c.Where = w[1]
+		}
+		c.Sig = fmt.Sprintf("C05:blocked:%s:%s", j.entry, w[0])
+		for _, blk := range strings.Split(stderr, "\n\n") {
+			if strings.Contains(blk, frugalPkg+w[0]+"(") && strings.Contains(blk, "[sync.") {
+				c.Stack = firstLines(blk, 16)
+				break
+			}
+		}
 	case exit == exitDead && len(fs) >= 4:
 		c.Kind, c.Msg = "dead", fs[3]
 		c.Sig = fmt.Sprintf("C05:stopped-serving:%s:%s", j.entry, fs[3])
